@@ -248,6 +248,10 @@ class CInference(Inference):
             self.epistemic_state["vMin"] = dict()
         if "fMin" not in self.epistemic_state:
             self.epistemic_state["fMin"] = dict()
+        # preprocessing is skipped on later calls, so the compiled base CSP must
+        # survive in the (per-manager) epistemic state, not only on this instance
+        if "base_csp" in self.epistemic_state:
+            self.base_csp = self.epistemic_state["base_csp"]
 
     def encoding(self, etas: dict, vSums: dict, fSums: dict) -> list:
         """
@@ -381,6 +385,7 @@ class CInference(Inference):
         self.compile_constraint(deadline)
         # self._translation_start_belief_base()
         self.base_csp = self.translate()
+        self.epistemic_state["base_csp"] = self.base_csp
         # self._translation_end_belief_base()
         # print("Translation done")
 
